@@ -46,7 +46,10 @@ Proof.
 Qed.
 
 Definition is_sql (e : event) : bool := match e with ESql _ _ => true | _ => false end.
-Definition is_cmd (e : event) : bool := match e with ECmd _ => true | _ => false end.
+(* a command handed to bash, waited for (ECmd) or spawned in the background (EBackground);
+   EBackground was added to this predicate together with the event, so that [quiet] keeps
+   meaning "no SQL request and no command of any kind" *)
+Definition is_cmd (e : event) : bool := match e with ECmd _ | EBackground _ => true | _ => false end.
 Definition is_connect (e : event) : bool := match e with EConnect _ => true | _ => false end.
 Definition quiet (ev : list event) : Prop := forall e, In e ev -> is_sql e = false /\ is_cmd e = false.
 
@@ -169,12 +172,25 @@ Section Model.
     apply_record st w (RSystem l cs cmd ex r) = ([], st, w, ONothing).
   Proof. intros H. cbn. now rewrite H. Qed.
 
+  (* STATEMENT CHANGED when background commands were modelled: the premise
+     [is_background cmd' = false] is new.  Without it the statement is false: a command
+     ending in '&' emits [EBackground _], not [ECmd _], and consumes no shell answer.
+     The background sibling is [executed_system_bg] below (and RunnerBackground.v). *)
   Theorem executed_system st w l cs cmd ex r cmd' :
     should_skip (labels st) [] cs = false -> may_substitute substitute st false cmd = SubOk cmd' ->
+    is_background cmd' = false ->
     exists a w', apply_record st w (RSystem l cs cmd ex r) = ([ECmd cmd'], st, w', apply_system ex a) /\
                  sys_calls w' = sys_calls w + 1 /\ calls w' = calls w.
   Proof.
-    intros H M. cbn. rewrite H, M. unfold sys_request. eexists _, _. repeat split.
+    intros H M B. cbn. rewrite H, M, B. unfold sys_request. eexists _, _. repeat split.
+  Qed.
+
+  Theorem executed_system_bg st w l cs cmd ex r cmd' :
+    should_skip (labels st) [] cs = false -> may_substitute substitute st false cmd = SubOk cmd' ->
+    is_background cmd' = true ->
+    apply_record st w (RSystem l cs cmd ex r) = ([EBackground (background_cmd cmd')], st, w, OSystem None false).
+  Proof.
+    intros H M B. cbn. now rewrite H, M, B.
   Qed.
 
   Theorem skipped_statement st w l cs c sql e r sql' ev st1 w1 id :
@@ -397,7 +413,8 @@ Section Model.
           eapply Rconn_ext; [exact RG|reflexivity|reflexivity|apply filter_connect_snoc; reflexivity].
       + injection H as <- <- <- <-. eapply Rconn_get; eauto.
     - destruct (should_skip (labels st) [] conds); [injection H as <- <- <- <-; apply Rconn_same; reflexivity|].
-      destruct (may_substitute substitute st false cmd); [|injection H as <- <- <- <-; apply Rconn_same; reflexivity|injection H as <- <- <- <-; apply Rconn_same; reflexivity].
+      destruct (may_substitute substitute st false cmd) as [cmd'| |]; [|injection H as <- <- <- <-; apply Rconn_same; reflexivity|injection H as <- <- <- <-; apply Rconn_same; reflexivity].
+      destruct (is_background cmd'); [injection H as <- <- <- <-; apply Rconn_same; reflexivity|].
       unfold sys_request in H. injection H as <- <- <- <-. apply Rconn_same; reflexivity.
     - destruct c; injection H as <- <- <- <-; apply (Rconn_ext (st, w) [] (st, w)); try reflexivity;
         apply Rconn_same; reflexivity.
